@@ -81,16 +81,16 @@ fn gen_packet(g: &mut Gen) -> Vec<u8> {
         let rq = g.bool();
         let cmd = if g.below(4) == 0 { g.u8() } else { g.below(0x16) as u8 };
         let iid = g.u8() & 0x1f;
-        let h0 = (if rq { 0x80 } else { 0 }) | (if g.below(8) == 0 { 0x40 } else { 0 }) | iid;
+        let h0 = (if rq { 0x80 } else { 0 }) | (if g.below(8) == 0 { 0x40 } else { 0 }) | (if g.below(8) == 0 { 0x20 } else { 0 }) | iid;
         body = vec![h0, cmd];
         let fixed = if rq { req_len(cmd) } else { resp_len_lib(cmd) };
         if !rq {
             body.push(if g.below(3) == 0 { g.u8() % 8 } else { 0 });
         }
-        let n = match g.below(4) { 0 => g.below(20), 1 => fixed + 1, 2 => fixed.saturating_sub(1), _ => fixed };
+        let n = match g.below(8) { 0 | 1 => g.below(20), 2 | 3 => fixed + 1, 4 => fixed.saturating_sub(1), 5 if fixed == 0 => 236 + g.below(40), _ => fixed };
         body.extend(g.bytes(n));
     } else {
-        let n = g.below(24);
+        let n = if g.below(8) == 0 { 236 + g.below(40) } else { g.below(24) };   // sometimes around / beyond the 259-byte SMBus maximum
         body = g.bytes(n);
     }
     let mut p = packet_bytes(dst, src, mt, &body);
@@ -148,6 +148,16 @@ fn chk_encoders(g: &mut Gen) -> Result<(), String> {
     let (addr, types, vids) = ctx_cfg(g);
     let c = MCTPSMBusContext::new(addr, &types, &vids);
     let rx = MCTPSMBusContext::new(g.u8(), &[], &[]);
+    // one to three encoder calls on the same pair of contexts; later calls sometimes reuse an earlier vendor identifier
+    let calls = if g.below(3) == 0 { 2 + g.below(2) } else { 1 };
+    let mut last_data: Option<u32> = None;
+    for _ in 0..calls {
+        enc_once(&c, &rx, addr, g, &mut last_data)?;
+    }
+    Ok(())
+}
+
+fn enc_once(c: &MCTPSMBusContext, rx: &MCTPSMBusContext, addr: u8, g: &mut Gen, last_data: &mut Option<u32>) -> Result<(), String> {
     let dst = g.u8();
     let poison = g.u8();
     let extra = g.below(8);
@@ -192,7 +202,9 @@ fn chk_encoders(g: &mut Gen) -> Result<(), String> {
                 expect = Some((0, b)); let ua: [u8; 16] = u.clone().try_into().unwrap(); { fit(&mut buf, &expect, exact); quiet(|| rq.resolve_uuid(dst, &ua, h, &mut buf)) } }
         16 => { expect = Some((0, vec![0x80, 0x11])); { fit(&mut buf, &expect, exact); quiet(|| rq.query_rate_limit(dst, &mut buf)) } }
         17 | 18 => { let fmt = if g.below(5) == 0 { g.u8() } else { g.u8() & 1 };
-                let data = match g.below(8) { 0 => 0xFFFF, 1 => 0xFFFF_FFFF, 2 => 0x0001_0000 | g.u8() as u32, 3 => 0, 4 => 0x0000_FF00 | g.u8() as u32, _ => u32::from_be_bytes([g.u8(), g.u8(), g.u8(), g.u8()]) };
+                let fresh = match g.below(8) { 0 => 0xFFFF, 1 => 0xFFFF_FFFF, 2 => 0x0001_0000 | g.u8() as u32, 3 => 0, 4 => 0x0000_FF00 | g.u8() as u32, _ => u32::from_be_bytes([g.u8(), g.u8(), g.u8(), g.u8()]) };
+                let data = match *last_data { Some(d) if g.bool() => d, _ => fresh };
+                *last_data = Some(data);
                 let n = match g.below(8) { 0 | 1 => 240 + g.below(30), 2 => 250 + g.below(600), _ => g.below(40) }; let msg = g.bytes(n);
                 let f = VendorIDFormat { format: fmt, data, numeric_value: g.u8() as u16 };
                 expect = match fmt { 0 => { let mut b = vec![(data >> 8) as u8, data as u8]; b.extend_from_slice(&msg); Some((0x7E, b)) }
@@ -279,6 +291,22 @@ fn chk_receive(g: &mut Gen) -> Result<(), String> {
     let e0 = g.u8();
     c.get_request().set_eid(e0);
     c.get_response().set_eid(e0);
+    // C17: the probe on short prefixes over a small alphabet, first on the fresh context
+    for _ in 0..2 {
+        let qn = g.below(6);
+        let q: Vec<u8> = (0..qn).map(|_| match g.below(5) { 0 => 0x00, 1 => 0x0F, 2 => 0xFF, 3 => 0x04, _ => g.u8() }).collect();
+        match quiet(|| c.get_length(&q)) {
+            Err(m) => return Err(format!("get_length({}) panicked: {}", hex(&q), m)),
+            Ok(r) => {
+                let want = if q.len() >= 3 && q[1] == 0x0F { Some(q[2] as usize + 4) } else { None };
+                match (r, want) {
+                    (Ok(l), Some(w)) if l == w => {}
+                    (Err((MessageType::Invalid, _)), None) => {}
+                    (r, w) => return Err(format!("get_length({}) = {:?}, expected {:?}", hex(&q), r.map_err(|e| err_class(&e)), w)),
+                }
+            }
+        }
+    }
     let p = gen_packet(g);
     // C17 / C10: the probe
     match quiet(|| c.get_length(&p)) {
